@@ -61,7 +61,7 @@ func checkWire(c wireCase) error {
 		}
 		return nil
 	}
-	pbt.Note(w, nearLimit(n) || hasEscapeWorthy(n), fmt.Sprintf("wirelen=%d", lenBucket(len(w))), fmt.Sprintf("labels=%d", min(len(n), 5)), d.class())
+	pbt.Note(w, nearLimit(n) || hasEscapeWorthy(n), fmt.Sprintf("wirelen=%d", lenBucket(len(w))), fmt.Sprintf("labels=%d", min(len(n), 5)), d.class(), highClass(n))
 	// the name sits behind a few unrelated octets, so offsets are exercised too
 	msg := append([]byte{0xde, 0xad, 0xbe}, w...)
 	msg = append(msg, 0x55)
@@ -75,6 +75,10 @@ func checkWire(c wireCase) error {
 	back, fq, uerr := wm.UnescName(s)
 	if uerr != nil || !fq || !back.Equal(n) {
 		return pbt.Errf("unpacked text %q does not denote the wire labels %q (unescape: %q fq=%v err=%v)", s, n, back, fq, uerr)
+	}
+	// the spelling of every octet is a function of the octet alone (utf8_test.go)
+	if serr := checkSpelling(fmt.Sprintf("UnpackDomainName(%x)", w), s, n); serr != nil {
+		return serr
 	}
 	buf, poff, err := d.packName(s, len(w))
 	if err != nil {
@@ -91,6 +95,9 @@ func checkWire(c wireCase) error {
 	pn, pfq, perr := wm.UnescName(ps)
 	if perr != nil || !pfq || !pn.Equal(n) {
 		return pbt.Errf("Name(%q).String()=%q does not denote the same labels", s, ps)
+	}
+	if serr := checkSpelling(fmt.Sprintf("Name(%q).String()", short(s)), ps, n); serr != nil {
+		return serr
 	}
 	// ... and for a name a program put together itself: every octet raw except the two that cannot
 	// be (a dot inside a label, a backslash). It is a valid name for the packer, and every printing
@@ -166,6 +173,10 @@ func genWire(t *rapid.T) wireCase {
 			n = append(n, make([]byte, rapid.IntRange(1, 3).Draw(t, "nullen")))
 		}
 		return wireCase{Labels: n, D: d}
+	case 5:
+		// labels out of UTF-8 material: well-formed multi-octet characters alone, among ASCII, next
+		// to ill-formed sequences (utf8_test.go)
+		return wireCase{Labels: genUTF8Name(t, 63), D: d}
 	}
 	return wireCase{Labels: uniformly(t, gen.Name(t, gen.NameOpts{MaxLabs: 10, Long: rapid.Bool().Draw(t, "biaslong")})), D: d}
 }
@@ -396,7 +407,7 @@ func short(s string) string {
 // spelled names around the limits
 func genText(t *rapid.T) textCase {
 	var n wm.Name
-	switch rapid.IntRange(0, 4).Draw(t, "shape") {
+	switch rapid.IntRange(0, 5).Draw(t, "shape") {
 	case 0: // total wire length 250..262
 		n = gen.NameOfWireLen(t, rapid.IntRange(248, 262).Draw(t, "wl"), gen.NameOpts{})
 	case 1: // one label of 60..66 octets
@@ -404,6 +415,8 @@ func genText(t *rapid.T) textCase {
 		l := gen.Bytes(t, rapid.IntRange(60, 66).Draw(t, "ll"), false)
 		pos := rapid.IntRange(0, len(n)).Draw(t, "pos")
 		n = append(n[:pos:pos], append(wm.Name{l}, n[pos:]...)...)
+	case 3: // labels of multi-octet UTF-8 characters, up to and beyond 63 octets (fewer characters than octets)
+		n = genUTF8Name(t, 66)
 	case 2: // far beyond
 		n = gen.NameOfWireLen(t, rapid.SampledFrom([]int{300, 400, 1000}).Draw(t, "far"), gen.NameOpts{})
 	default:
